@@ -486,7 +486,7 @@ pub fn history(index: u64, mut rng: Rng, tier: Tier) -> Outcome {
             }
             _ => {
                 // real miner creation through the power actor (Exec of miner code by power)
-                let dep = fil_actors_integration_tests::util::create_miner_deposit_for_test(&v);
+                let dep = crate::world::create_miner_deposit(&v);
                 let p = fil_actor_power::CreateMinerParams {
                     owner: from,
                     worker: from,
